@@ -60,7 +60,7 @@ impl Panicked {
     pub fn signature(&self) -> String {
         let s = &self.0;
         // strip registry prefix
-        let s = if let Some(i) = s.find("/src/") {
+        let s = if let Some(i) = s.rfind("/src/") {
             // keep crate dir name + rest
             let pre = &s[..i];
             let crate_name = pre.rsplit('/').next().unwrap_or("");
